@@ -15,6 +15,7 @@ from xknx.knxip.dib import DIBDeviceInformation, DIBGeneric, DIBSecuredServiceFa
 from xknx.knxip.knxip_enum import DIBTypeCode
 from xknx.secure.keyring import InterfaceType, Keyring, XMLInterface
 from xknx.telegram import IndividualAddress
+from xknx.telegram.address import GroupAddress, GroupAddressType
 
 LEVEL = "exploration"
 TECHNIQUE = (
@@ -740,6 +741,10 @@ async def gateway_sequences(ctx, caps_list, frames_for):
             outcomes[ip] = rng.choice(("comm", "comm", "secure", "nosec", "ok")) if pos < k - 1 else rng.choice(("ok", "ok", "nosec", "comm"))
         flags, name = rng.choice(variants) if rng.random() < 0.6 else ((True, True, True, True, True), None)
         keyring_kind = rng.choice(KEYRINGS[:4]) if rng.random() < 0.8 else rng.choice(KEYRINGS)
+        # nothing in the statement depends on the configured group address notation: vary it, the oracle stays the same
+        fmt = rng.choice((GroupAddressType.LONG, GroupAddressType.SHORT, GroupAddressType.FREE))
+        GroupAddress.address_format = fmt
+        ctx.count("sequences_under_notation_" + fmt.name)
         ctx.ev()
         result, log = await run_start(gateways, outcomes, flags, name, keyring_kind, use_default_filter=(i % 7 == 0 and name is None and all(flags)))
         if result.startswith("unexpected"):
@@ -766,7 +771,8 @@ def run(ctx):
                 "filter_match_judged", "filter_expected_match", "filter_expected_no_match", "gateway_offered", "gateway_not_offered",
                 "automatic_starts_sequences", "sequences_with_attempts_on_several_gateways",
                 "single_gateway_response_mode_legacy_then_ext", "single_gateway_response_mode_ext_then_legacy",
-                "sequence_gateways_answering_twice", "descriptors_parsed_from_rearranged_dibs", "automatic_starts_rearranged_dibs",
+                "sequence_gateways_answering_twice", "sequences_under_notation_SHORT", "sequences_under_notation_FREE",
+                "descriptors_parsed_from_rearranged_dibs", "automatic_starts_rearranged_dibs",
                 "descriptors_parsed_from_other_version_octets", "descriptors_with_secured_family_version_octet_0", "automatic_starts_other_version_octets",
                 "filter_match_with_name_judged", "filter_name_equal_methods_do_not_fit",
                 "single_gateway_dib_layout_secured-families-dib-before-supported-families-dib", "sequence_gateways_with_rearranged_dibs")
@@ -791,6 +797,7 @@ def run(ctx):
     check_filter_predicate(ctx, caps_list, frames)
 
     loop = asyncio.new_event_loop()
+    saved_format = GroupAddress.address_format
     try:
         with Patched():
             if ctx.shard == 0:
@@ -801,6 +808,7 @@ def run(ctx):
                 ctx.extra["exhaustive_part"] = "432 capability sets (the 120 Core-V2 ones in 3 answer modes: extended, legacy+extended, extended+legacy with failing secure attempt) x 37 filters x 7 keyring situations (single gateway); the 216 capability sets announcing a secured service x every DIB arrangement of the answer (permutations, duplicated DIBs, a foreign DIB in between) x 6 filters x 2 keyring situations; filter predicate on the same sets and all DIB arrangements"
             loop.run_until_complete(gateway_sequences(ctx, caps_list, frames_for))
     finally:
+        GroupAddress.address_format = saved_format
         loop.run_until_complete(loop.shutdown_asyncgens())
         loop.close()
     if GatewayScanner.async_scan is fake_async_scan:
